@@ -239,8 +239,8 @@ void harness(void) {
     sig->track_fsr = fsr;
     /* In a real session the memory right behind the scratch buffer (level[] pointers) is non-zero; level[0] is
      * documented as unused, so a non-NULL value there makes a read past the scratch visible as a non-zero fill. */
-    static struct jls_core_fsr_level_s sentinel_level;
-    fsr->level[0] = &sentinel_level;
+    static struct jls_core_fsr_level_s sentinel_level[2];
+    fsr->level[0] = &sentinel_level[1];      /* non-zero offset: CBMC encodes a pointer as object|offset, the low bytes are the offset */
 #ifdef OMIT_REQUEST
     SYM_U8(omit_at_start);
     if (omit_at_start & 1) {
